@@ -80,10 +80,10 @@ impl<'a> TypstTranslator<'a> {
         match pat {
             Pattern::Normal(expr) => self.parse_expr(expr, offset),
             Pattern::Placeholder(underscore) => token!(underscore, TokenKind::Unlintable),
-            Pattern::Parenthesized(parenthesized) => merge![
-                self.parse_expr(parenthesized.expr(), offset),
+            // Inside a pattern the wrapped node is a pattern (`expr()` would yield it again).
+            Pattern::Parenthesized(parenthesized) => {
                 self.parse_pattern(parenthesized.pattern(), offset)
-            ],
+            }
             Pattern::Destructuring(destructuring) => Some(
                 destructuring
                     .items()
